@@ -131,6 +131,11 @@ MUTS = [
   "keep = keep[:3] + (slice(None),) * (3 - len(keep))\n", "keep = keep[:2] + (slice(None),) * (2 - len(keep))\n"),
  ('M57 v3 weights under keepdims: per-channel weights keep their singleton axes too', 'katdal/h5datav3.py',
   "        weights_channel.transforms = []\n", "        pass\n"),
+ # ---- extension round: the product axis against the stored ordering
+ ('M58 v4: subarray built from the SORTED baseline ordering', 'katdal/visdatav4.py',
+  "self.subarrays = subs = [Subarray(ants, corrprods)]", "self.subarrays = subs = [Subarray(ants, sorted(tuple(cp) for cp in corrprods))]"),
+ ('M59 v3: subarray products listed with the two inputs swapped', 'katdal/h5datav3.py',
+  "self.subarrays = [Subarray(ants, corrprods)]", "self.subarrays = [Subarray(ants, [(b, a) for a, b in corrprods])]"),
 ]
 only = sys.argv[1:]
 res = []
